@@ -17,8 +17,8 @@ CONSTANTS FoldAt,     \* real value 214 (= 255 - 40 - 1); the grammar uses a sma
           Big         \* TRUE: the larger identity space (thorough)
 
 \* names as sequences of characters: lower, upper and characters outside [a-z0-9_.-]
-NameChars == {"p", "P", "<", ">", "_"}
-Names == {<<"p">>, <<"P">>, <<"p", "<">>, <<"p", ">">>, <<"p", "p", "p", "p">>}
+NameChars == {"p", "P", "<", ">", "_", "/"}
+Names == {<<"p">>, <<"P">>, <<"p", "<">>, <<"p", ">">>, <<"p", "p", "p", "p">>, <<"p", "/", "p">>}
          \cup (IF Big THEN {<<"p", "_">>, <<"p", "<", ">">>, <<"p", "p">>} ELSE {})
 Lower(c) == IF c = "P" THEN "p" ELSE c
 Allowed(c) == c \in {"p", "_"}
